@@ -76,7 +76,10 @@ class Args(object):
             for i, v in enumerate(value):
                 value[i] = option.parse(v)
         elif option.accepts_value():
-            value = option.parse(value)
+            # None means that no value was given (option with an optional
+            # value and no default): there is nothing to convert.
+            if value is not None:
+                value = option.parse(value)
         elif value is False:
             if option.long_name in self._options:
                 del self._options[option.long_name]
